@@ -3,8 +3,12 @@ use vcommon::Args;
 
 mod c10;
 mod c11;
+mod c12;
 mod c13;
 mod c14;
+mod c15;
+mod c16;
+mod c17;
 mod c26;
 mod c27;
 
@@ -15,8 +19,12 @@ fn main() {
         "c10_chains" => c10::chains(&args),
         "c10_lattice" => c10::lattice(&args),
         "c11" => c11::run(&args),
+        "c12" => c12::run(&args),
         "c13" => c13::run(&args),
         "c14" => c14::run(&args),
+        "c15" => c15::run(&args),
+        "c16" => c16::run(&args),
+        "c17" => c17::run(&args),
         "c26_rt" => c26::roundtrip(&args),
         "c26_hostile" => c26::hostile(&args),
         "c27_exh" => c27::exhaustive(&args),
